@@ -34,7 +34,7 @@ FLOORS = {'*': {
     'cfg:sync:None': 100, 'cfg:sync:0': 20, 'cfg:sync:1': 20, 'cfg:sync:3': 20,
     'cfg:async:None': 100, 'cfg:async:0': 20, 'cfg:async:1': 20, 'cfg:async:3': 20,
     'branch:none-return': 10, 'branch:-32700': 50, 'branch:-32600': 50, 'branch:batch-response': 50,
-    'branch:single-response': 50, 'input:not-json': 50, 'input:batch': 50, 'input:bigint': 4, 'input:depth>=32': 4,
+    'branch:single-response': 50, 'ambient:dispatch-wrapper': 20, 'ambient:extract_error_codes-ensure': 20, 'input:not-json': 50, 'input:batch': 50, 'input:bigint': 4, 'input:depth>=32': 4,
 }}
 
 CONFIGS = [(a, m) for a in (False, True) for m in (None, 0, 1, 3)]
@@ -61,6 +61,7 @@ def gen(ctx):
         for is_async, mb in configs_for(is_batch):
             yield 'text', {'family': family, 'text': text, 'is_async': is_async, 'max_batch': mb}
 
+    yield 'ambient_suite', {}
     for fam, text in docs.object_product(rng, exhaustive=full, samples=2500):
         yield from emit(fam, text, False)
     for fam, text in docs.singles(rng, full):
@@ -115,8 +116,40 @@ def run_text(ctx, family, text, is_async, max_batch):
                   returned=o.raw, exception=o.exc, text_features=info.features)
 
 
+def run_ambient_suite(ctx):
+    """the repository's own test-suite as an extra workload, watched by the ambient contracts (vmon/ambient.py)"""
+    import json as _json
+    import os
+    import subprocess
+    import tempfile
+    from ..core import REPO, VERIF
+    fd, path = tempfile.mkstemp(suffix='.json', dir='/var/tmp')
+    os.close(fd)
+    env = dict(os.environ, VMON_AMBIENT_REPORT=path, PYTHONPATH=os.pathsep.join([REPO, VERIF]), PYTHONDONTWRITEBYTECODE='1')
+    env.pop('PJRPC_VERIF', None)
+    try:
+        r = subprocess.run([os.environ.get('VERIF_PY', '/venv/bin/python'), '-m', 'pytest', '-q', '-p', 'no:cacheprovider', '-p',
+                            'vmon.pytest_ambient', '--timeout=900'], cwd=REPO, env=env, capture_output=True, text=True, timeout=1200)
+        rep = _json.load(open(path))
+    except Exception as e:
+        ctx.note('ambient_suite_failure', repr(e))
+        return
+    finally:
+        try:
+            os.unlink(path)
+        except OSError:
+            pass
+    ctx.note('ambient_suite', {'evaluations': rep['evaluations'], 'installed': rep['installed'], 'pytest_tail': r.stdout.strip().splitlines()[-1:]})
+    for name, n in rep['evaluations'].items():
+        ctx.hit('ambient:' + name, n)
+    for v in rep['violations']:
+        ctx.violation(f"ambient:{v['contract']}:{v.get('what', '')[:60]}", 'ambient-suite', (v['contract'], v.get('what')), **v)
+    if not rep['violations']:
+        ctx.ok('ambient-suite', ('ambient-suite',), sample={'workload': 'tests/ of the repository under vmon.pytest_ambient', 'evaluations': rep['evaluations']})
+
+
 def _all_notifications(doc):
     return isinstance(doc, list) and bool(doc) and all(isinstance(e, dict) and e.get('id') is None for e in doc)
 
 
-KINDS = {'text': run_text}
+KINDS = {'text': run_text, 'ambient_suite': run_ambient_suite}
